@@ -81,8 +81,8 @@ CHECKS = {
             "and requires the two transcribed deviations (and the names-from-instance-memory regression) to violate them; TLC enumerates all sequences of <= 2 steps over 117 batches "
             "of boundary lengths (14k scenarios) and samples longer ones; each is replayed on the real fschannel.OpenRotateFile/Write "
             "(several rotations per second happen naturally) and the property's predicates are evaluated on the files on disk after "
-            "every step; bursts through the real FileBackend (Send, writer goroutine, 1 s flush) incl. an unopenable destination "
-            "under a watchdog.",
+            "every step; bursts through the real FileBackend (Send, writer goroutine, 1 s flush; more than its 500 KiB buffer within one "
+            "flush interval at maximum sizes 1024 and 4096 as well as 1 and 4 MiB) incl. an unopenable destination under a watchdog.",
             "Line = JSON object padded to an exact length; operator-deleted lines are not counted as lost; verdicts are the "
             "property's predicates on real files, the model's exact placement is compared only as drift information.",
             "TLA+ spec + TLC (safety + liveness, deviations as model regressions), exhaustive/simulated scenario replay on the real file channel",
@@ -121,7 +121,7 @@ CHECKS = {
             "code's shared variables to violate it; the interleavings TLC enumerates (2 sessions x 5 steps: 252, 3 sessions x 4/5 "
             "steps) are sampled by seed - always with the sequential ones and histories of 4..6 earlier sessions - and executed "
             "step by step against one real server instance per scenario (fresh process) for ldap, ftp, smtp, telnet, redis, "
-            "memcached, http and tftp; each connection's replies and events (addresses, session-id structure, command fields) "
+            "memcached, http and tftp, with clients on distinct source ports and with clients that differ in their IP address only; each connection's replies and events (addresses, session-id structure, command fields) "
             "must equal what the same script obtains alone on a fresh server.",
             "Lock-step request/response granularity; volatile fields masked (dates, session-id values, passive ports, Go-map "
             "ordering of FEAT / LDAP attribute lists); a disagreement counts only if it reproduces in a second fresh process.",
@@ -132,8 +132,8 @@ CHECKS = {
             "reconnects; TLC checks SuccessIffConfigured, GateHolds and EveryAttemptLogged as action properties for every "
             "credential set of size <= 1 x all 2-step sequences exhaustively and for sets of size <= 3 x 5-step sequences by "
             "simulation, per service; the generated sequences are replayed against the real ssh-simulator (x/crypto ssh client, "
-            "password retries on one connection), ldap (hand-built BER bind/add, names also given as DNs) and ftp (USER/PASS, PWD as "
-            "gated probe) through the real server; per-attempt outcome, gate refusals and the recorded user/password of every "
+            "password retries on one connection), ldap (hand-built BER bind and add/modify/delete/modifyDN/compare in turn, names also given as DNs) and ftp (USER/PASS, PWD as "
+            "gated probe) through the real server; per-attempt outcome, gate refusals before a login, the gate being open right after the successful login of a named user, and the recorded user/password of every "
             "attempt are compared with the specification.",
             "Users {root, admin, guest, ''} x passwords {root, admin, 123456, ''} (ftp: around its built-in anonymous account); "
             "ssh gated operations are not part of the property; sequences are sampled per credential set by seed.",
@@ -147,7 +147,7 @@ CHECKS = {
             "smtp (incl. DATA and BDAT), redis, memcached, telnet, http, ldap, elasticsearch, docker, eos, ethereum, cwmp, ipp are "
             "sent to the real server whole, with every single byte cut exhaustively, with TLC's multi-cut sets mapped onto the "
             "request landmarks, dribbled, multi-cut at random and lock-step; dns, tftp, snmp, memcached, counterstrike datagrams "
-            "one by one; the captured events' decoded fields must equal the expected list in every case.",
+            "one by one through the in-memory listener AND 48 back to back from 48 source addresses through honeytrap's own socket listener (every datagram must produce exactly its own events); the captured events' decoded fields must equal the expected list in every case.",
             "Decoded fields per service are listed in mbt/protocols.py (C04 tables); one-request-per-connection services get one "
             "request; timing: events are collected after the connection went quiet and was half-closed.",
             "TLA+ spec + TLC exhaustive segmentations, replay of cut sets on real services, expected events = RefParse",
@@ -186,7 +186,8 @@ CHECKS = {
             "(segment lengths 1, 2, 1459, 1460, PSH, FIN with/without data, the client's closing ACK, RST after its FIN) and simulates interleavings of two; 20 overlap scenarios (2-4 connections, an earlier one completes its close or is reset on a decoded port while later ones go on); they are bound to the "
             "boundary ISNs 0, 1, 2^31-1, 2^31, 2^32-2, 2^32-1 and random ones, decoded and undecoded ports, injected into a real Canary "
             "(hooks), every emitted frame is decoded by the harness's own decoder, and TLC validates the recorded steps against "
-            "CanaryTCP_Trace; connection events (addresses, payload = prefix containing the first pushed segment) are checked too.",
+            "CanaryTCP_Trace; connection events (addresses, payload = prefix containing the first pushed segment) are checked too, also when the pushed segment arrives "
+            "while the handler's reader is between finding its buffer empty and starting to wait (AgentConn.tla's protocol; guarded hook canary.VerifSocketGap holds it there).",
             "Server ISN as drawn (wrap of the listener's own sequence space not steerable); data piggybacked on the handshake-"
             "completing ACK is outside the explored behaviours; synchronous injection via hook VerifInject.",
             "TLA+ spec + TLC generation of client behaviours, injection into the real listener, TLC trace validation of emitted frames",
@@ -211,23 +212,25 @@ CHECKS = {
             "type x tcp/udp x IPv4/IPv6 x ports x 13 payload length classes. Message sequences are played by a scripted agent (libdisco "
             "Noise_NK client, honeytrap's exported message types) against the REAL agent listener started by the real server; an echo "
             "service answers per virtual connection; bytes read per connection and frames returned per connection are compared with the "
-            "specification; payloads 1..4000 bytes and single payloads 4075..65000; every codec record goes through the real "
+            "specification; payloads 1..4000 bytes and single payloads 4075..65000; the agent going away with 1..8 connections open must end exactly those (AllEndedWhenGone); "
+            "AgentConn.tla models one connection's reader and the session loop at the grain of their critical sections (NoStall, NoLoss, Delivered under fairness; an unbuffered notification violates NoStall) and TLC's 30 schedules "
+            "of messages arriving while the reader waits or is between releasing its lock and waiting are forced on the real connection through the guarded hook agent.VerifReadGap; every codec record (strings and address lists across the decoder's 4096-byte buffer included) goes through the real "
             "MarshalBinary/UnmarshalBinary.",
             "Lock-step driving (echo awaited before the next message) and, for sequences in which the service never closes first, "
-            "pipelined driving (data back to back, streams of up to 20 data messages on 1..4 connections); races inside "
-            "agentConnection.Read (wake-up signalling) are not forced; UDP relay messages are covered by the codec part only.",
+            "pipelined driving (data back to back, streams of up to 20 data messages on 1..4 connections); UDP relay messages are covered by the codec part only; "
+            "what the agent had not yet read back when it went away is not compared.",
             "TLA+ specs + TLC exhaustive/simulate generation, replay against the real agent listener, codec transition replay",
             "DESIGN.md §3 C16"),
     "C18": ("model_checking",
             "Identity.tla models start-up as a sequence of steps (token stat/generate/write, per-service load-or-generate-then-store) with "
-            "a Kill enabled at every step, over any number of restarts with varying service sets; TLC checks WellFormed and Stable "
+            "a Kill enabled at every step (the key and the certificate of ftp/smtp/ldap are two stored items: a kill between them leaves the key alone), over any number of restarts with varying service sets; TLC checks WellFormed and Stable "
             "exhaustively (2 items, 3 starts, 3 initial token states) and requires the transcribed deviation (write in place, adopt "
-            "unvalidated) to violate them; restart histories generated by TLC (5 service sets x completed/killed x initial token states) "
+            "unvalidated) and the regressions tmp_exclusive_create and pair_only_if_both_missing to violate them; restart histories generated by TLC (5 service sets x completed/killed x initial token states) "
             "are executed as separate lab processes on one data directory: starts marked killed receive SIGKILL at a seeded instant of "
-            "their start-up, every on-disk token state a kill can leave (absent, empty, prefixes of 1/10/19 characters, complete) is "
+            "their start-up, starts killed between a key and its certificate are reproduced exactly (completed start, then the certificate is taken out of the store), every on-disk token state a kill can leave (absent, empty, prefixes of 1/10/19 characters, complete) is "
             "prepared, and completed starts observe the identity from outside (event token, SSH host key, certificates after AUTH TLS / "
             "STARTTLS / LDAP StartTLS, agent public key); WellFormed and Stable are evaluated on the observations.",
-            "Kill points are approximated by random instants plus the prepared token-file states; crash consistency inside badger is "
+            "Kill points are approximated by random instants plus the prepared token-file and half-written-pair states; crash consistency inside a single badger transaction is "
             "observed, not modelled.",
             "TLA+ spec + TLC exhaustive crash-point model, history generation, replay across real processes",
             "DESIGN.md §3 C18"),
